@@ -12,7 +12,7 @@ from .common import coq_bool, coq_list, coq_str
 
 PID = "C05"
 PROPS_FILE = "props/C05.v"
-MODEL_TARGETS = ["model/Crash.vo", "model/GraphDump.vo", "model/GraphInv.vo"]
+MODEL_TARGETS = ["model/Crash.vo", "model/GraphDump.vo", "model/GraphInv.vo", "model/CrashStartup.vo"]
 RULE = ("E3 crash runs on the real director: a project (8 hand-written families: chain, diamond, sub-plan, "
         "amended inputs/outputs with deferral, optional chain whose consumer is dropped, dropped steps with nested "
         "directories and volatile outputs, newly declared static files + env change, failing step; plus "
@@ -55,7 +55,8 @@ FST = {11: "FUndeclared", 12: "FUnconfirmed", 13: "FMissing", 14: "FConfirmed", 
 SST = {21: "SPending", 22: "SRunning", 23: "SSucceeded", 24: "SFailed", 25: "SChecking"}
 NEED = {31: "NOptional", 32: "NDefault", 34: "NPlan"}
 HEADER = ("From Coq Require Import List NArith Bool.\nImport ListNotations.\n"
-          "From SV Require Import lib.Bytes model.Graph model.GraphDump model.GraphInv gen.GenCrash model.Crash.\n"
+          "From SV Require Import lib.Bytes model.Graph model.GraphDump model.GraphInv gen.GenCrash model.Crash "
+          "model.CrashStartup.\n"
           "Open Scope N_scope.\n")
 
 
@@ -104,6 +105,28 @@ def crash_state_check(db: dict) -> str:
     return f"let s0 := {s0} in " + " && ".join(f"({p})" for p in parts)
 
 
+def cq_xst(d) -> str:
+    envs = coq_list([f"mkEV {coq_str(s)} {coq_str(n)} {cq_opt(v, str)}" for s, n, v in d["envvals"]])
+    ngs = coq_list([f"mkNG {i} {coq_str(s)} {g}" for i, s, g in d["nglobs"]])
+    return f"(mkX {cq_state(d)} {envs} {ngs})"
+
+
+def cq_world(w) -> str:
+    env = coq_list([f"({coq_str(n)}, {v})" for n, v in w["env"]])
+    disk = coq_list([f"({coq_str(p)}, {h})" for p, h in w["disk"]])
+    glob = coq_list([f"({i}, {g})" for i, g in w["glob"]])
+    return f"(mkW {env} {disk} {glob})"
+
+
+def startup_state_check(probe: dict) -> str:
+    """true iff the model of the startup sequence (open without strict check, then the phases with the
+    GENERATED block structure of rescan_env_vars), run on the tables a director killed inside its
+    startup sequence left and on the world its successor sees, ends in the tables the real successor
+    had right before its job loop started."""
+    return (f"startup_agrees rescan_env_vars_blocks {cq_world(probe['world'])} {cq_xst(probe['x0'])} "
+            f"{cq_xst(probe['after'])}")
+
+
 # -- the crash runs (shared by correspondence and oracle) ------------------------------------------
 
 WITNESS_POINTS = [
@@ -122,16 +145,35 @@ def _jobs(ctx):
         picks = [(n, s) for n in names for s in (ctx.seed * 4, ctx.seed * 4 + 1, ctx.seed * 4 + 3)]
         picks += [("gen", ctx.seed * 100 + i) for i in range(6)]
         jobs += [{"case": cc.make_case(n, s)} for n, s in picks]
+        # startup families: every kind twice, every commit of the startup sequence (before and
+        # after), plus a sample of the rest of the build
+        for kind in cc.STARTUP_KINDS:
+            jobs.append({"case": cc.make_case("st-" + kind, ctx.seed * 2), "sample": 12, "seed": ctx.seed,
+                         "startup": True, "startup_both": True})
+            jobs.append({"case": cc.make_case("st-" + kind, ctx.seed * 2 + 1), "sample": 0, "seed": ctx.seed,
+                         "startup": True, "startup_both": True})
     else:
         picks = [(n, rng.randrange(1000)) for n in rng.sample(names, 4)] + [("gen", rng.randrange(1000))]
         jobs += [{"case": cc.make_case(n, s), "sample": 10, "seed": ctx.seed} for n, s in picks]
+        # startup families: one case of every class of evidence the startup sequence compares with
+        # the outside world (tracked environment variable, file hash, glob matches, interrupted
+        # step) and one combination, killed at EVERY commit of the startup sequence
+        classes = [["env", "env-unset", "env-set", "env-two"], ["env-amended", "env-two", "env"],
+                   ["source", "source-delete", "plan-touch"], ["out-del", "out-tamper"],
+                   ["glob-add", "glob-del"], ["interrupted"], ["combo"]]
+        used = set()
+        for cl in classes:
+            kind = rng.choice([k for k in cl if k not in used] or cl)
+            used.add(kind)
+            jobs.append({"case": cc.make_case("st-" + kind, rng.randrange(1000)), "sample": 2, "seed": ctx.seed,
+                         "startup": True})
     return jobs
 
 
 def _run(ctx):
     if getattr(ctx, "c05_results", None) is None:
         from . import e3
-        nproc = 8 if ctx.thorough() else 4
+        nproc = 8 if ctx.thorough() else 6
         ctx.c05_results = e3.pool_map(cc.run_job, _jobs(ctx), nproc=nproc)
     return ctx.c05_results
 
@@ -172,6 +214,24 @@ def correspondence(ctx):
     ctx.count("crash_states_replayed_in_model", len(checks))
     bad = _run_cases_fresh(ctx, "crashstates", checks) if checks else []
     ctx.traces_validated += len(checks) - len(bad)
+    # the startup sequence of the restarted director, model against implementation
+    schecks, sowners = [], []
+    for case, ref, pr in _points(results):
+        probe = (pr.get("db") or {}).get("startup") or {}
+        if probe.get("after") is None or probe.get("x0") is None or len(schecks) >= ctx.scale(150, 900):
+            continue
+        schecks.append(startup_state_check(probe))
+        sowners.append((case, pr))
+    ctx.count("startup_sequences_replayed_in_model", len(schecks))
+    sbad = _run_cases_fresh(ctx, "startupstates", schecks) if schecks else []
+    ctx.traces_validated += len(schecks) - len(sbad)
+    for b in sbad[:3]:
+        case, pr = sowners[b]
+        ctx.add_failure("correspondence", "E3:startup-sequence", f"E3:startup-sequence:{cc._window(pr['info'])}",
+                        "the model of the startup sequence (model/CrashStartup.v with the generated block "
+                        "structure of rescan_env_vars) run on the tables of the killed director and the world of "
+                        "its successor does not end in the tables the real successor had before its job loop",
+                        witness={"case": case, "point": pr["point"]})
     for b in bad[:3]:
         case, pr = owners[b]
         ctx.add_failure("correspondence", "E3:crash-state", f"E3:crash-state:{cc._window(pr['info'])}",
@@ -243,11 +303,13 @@ def oracle(ctx):
 
 
 def _deep(ctx):
-    """Every crash point of six more projects."""
+    """Every crash point of six more projects, every startup commit of every startup family."""
     from . import e3
     rng = random.Random(f"c05-search-{ctx.seed}")
     names = [n for n, _ in cc.FAMILIES] + ["gen"]
     jobs = [{"case": cc.make_case(rng.choice(names), rng.randrange(10000))} for _ in range(6)]
+    jobs += [{"case": cc.make_case("st-" + kind, rng.randrange(10000)), "sample": 0, "startup": True,
+              "startup_both": True} for kind in cc.STARTUP_KINDS]
     return e3.pool_map(cc.run_job, jobs, nproc=6)
 
 
